@@ -2,6 +2,7 @@ import Nv.Proofs.C09Unm
 import Nv.Proofs.C09Block
 import Nv.Proofs.C09Order
 import Nv.Proofs.C09Marshal
+import Nv.Proofs.C09List
 /-!
 C09 — property theorems for `Bit1024.Marshal/Unmarshal`, `BigU32` and `U32BitTip`
 (model: `Nv.Model.C09` on top of the C08 bitmap model; proofs: `Nv/Proofs/C09*.lean`).
@@ -10,6 +11,24 @@ C09 — property theorems for `Bit1024.Marshal/Unmarshal`, `BigU32` and `U32BitT
 dispatching `reverse ⇒ RIterAsU32`) — this is what /repo contains since commits f369e56 and d9c43db. `cfgUnrepaired` is
 the configuration the extractor produced *before* those repairs; the `witness_*` theorems keep the concrete inputs on
 which the property is false for it (they are the replays that exposed F07 / F08, and what a revert would reproduce).
+
+Index — clause of the property statement ↦ theorem(s):
+* "Unmarshalling the bytes produced by Marshal into a fresh bitmap reproduces the bitmap exactly, for both the sparse
+   (2 bytes per member, fewer than 64 members) and the dense (128 byte) encodings"
+      `marshal_roundtrip`, `marshal_size`, `le_bytes_roundtrip`
+* "Unmarshal of arbitrary bytes never panics" .............. `unmarshal_never_panics`
+* "and either fails or yields exactly the set the bytes denote"
+      `unmarshal_total_exact` (fresh target), `unmarshal_rejects_bad_length`, `unmarshal_into_any` (why the target must be fresh)
+* "a block bitmap built from an integer (64-bit blocks up to 2^32*1024-1025, 32-bit blocks over all uint32) iterates back
+   to precisely that integer" ............................. `bigu32_roundtrip`, `bigu32_rejects_out_of_range`, `u32tip_roundtrip`
+* "accepts further integers exactly when they belong to its block"
+      `bigu32_accepts_iff_same_block`, `u32tip_accepts_iff_same_block`
+* "forward iteration is ascending while reverse iteration is descending"
+      `block_iteration_exact`, `block_forward_ascending`, `block_reverse_descending`, `tip_forward_ascending`,
+      `tip_reverse_descending`, `newTip_start_le`
+* list forms (anchor "list forms concatenate per-block iteration")
+      `bigs_list_concat`, `tips_list_concat`, `list_forms_total`, `bigs_list_values` (loop invariant `listChain_spec`)
+* the property is false of the unrepaired source ............ `witness_*`, `not_bigu32_roundtrip_unrepaired`, `cfgUnrepaired_not_proved`
 -/
 namespace Nv.C09
 open Nv.C08
@@ -271,6 +290,80 @@ theorem newTip_start_le (u : BitVec 32) : (newTipFromU32 u).start.toNat ≤ 4194
   have l := u.isLt
   simp only [newTipFromU32]
   omega
+
+/-! ### list forms: concatenation of the per-block iterations in the order the code visits, truncated to `n` -/
+
+/-- **`BigU32s.GetNAsI64 / RGetNAsI64`** (as coded: blocks are visited in *index order for both directions*; inside a block
+    the direction applies). The result is `nil` for an empty list, a panic for `n < 0` on a non-empty list (`make`),
+    otherwise exactly the first `n` values of the concatenation of the per-block full iterations
+    (`blockAll rev bits (Start·1024)`; its `take k` is the single-block output of `block_iteration_exact`). The loop's
+    bookkeeping (`pos = iterN`, `left = n - iterN`, stop once `iterN >= n`) is the invariant `listChain_spec`. -/
+theorem bigs_list_concat (c : Cfg) (hc : Proved c) (magic : Int) (rev : Bool) (bs : List Block) (n : Int) :
+    bigsGetN c magic rev bs n =
+      if bs = [] then .nil else if n < 0 then .panic
+      else .slice ((bs.flatMap (fun b => blockAll rev b.bits (BitVec.setWidth 64 b.start * 1024#64))).take n.toNat) := by
+  unfold bigsGetN
+  apply listGetN_spec
+  intro b s pos left h0 hroom
+  unfold bigIter
+  rw [bigOffset_proved c hc]
+  rw [← expected_eq_take_blockAll] at hroom ⊢
+  exact iter1024_eq_spec c.base hc.1 magic rev b.bits s pos _ left h0 hroom
+
+/-- **`U32BitTips.GetNAsU32 / RGetNAsU32`** (as coded: the reverse form visits the blocks in *reverse index order* and
+    iterates each block downwards; the forward form visits them in index order) -/
+theorem tips_list_concat (c : Cfg) (hc : Proved c) (magic : Int) (rev : Bool) (bs : List Block) (n : Int) :
+    tipsGetN c magic rev bs n =
+      if bs = [] then .nil else if n < 0 then .panic
+      else .slice (((if rev then bs.reverse else bs).flatMap (fun b => blockAll rev b.bits (b.start * 1024#32))).take n.toNat) := by
+  unfold tipsGetN
+  have hne : ((if rev then bs.reverse else bs) = []) ↔ bs = [] := by cases rev <;> simp
+  have := listGetN_spec (w := 32) (fun b s pos left => tipIter c magic rev b s pos left)
+    (fun b => blockAll rev b.bits (b.start * 1024#32)) (by
+      intro b s pos left h0 hroom
+      unfold tipIter
+      rw [hc.2.2.2.2.1]
+      rw [← expected_eq_take_blockAll] at hroom ⊢
+      exact iter1024_eq_spec c.base hc.1 magic rev b.bits s pos _ left h0 hroom) n (if rev then bs.reverse else bs)
+  rw [this]
+  by_cases hb : bs = []
+  · simp [hb]
+  · have : ¬ (if rev then bs.reverse else bs) = [] := fun h => hb (hne.1 h)
+    simp [hb, this]
+
+/-- total produced by a list form: `min(n, Σ Len)` — nothing is skipped, nothing is produced after `n` is exhausted -/
+theorem list_forms_total (rev : Bool) (bs : List Block) (add : Block → BitVec 64) (n : Int) :
+    ((bs.flatMap (fun b => blockAll rev b.bits (add b))).take n.toNat).length =
+      min n.toNat ((bs.map (fun b => (members1024 b.bits).length)).sum) := by
+  have hl : ∀ b : Block, (blockAll rev b.bits (add b)).length = (members1024 b.bits).length := by
+    intro b; unfold blockAll; cases rev <;> simp only [Bool.false_eq_true, if_false, if_true, List.length_map, List.length_reverse]
+  have : (bs.flatMap (fun b => blockAll rev b.bits (add b))).length = (bs.map (fun b => (members1024 b.bits).length)).sum := by
+    induction bs with
+    | nil => rfl
+    | cons b rest ih => rw [List.flatMap_cons, List.length_append, ih, List.map_cons, List.sum_cons, hl]
+  rw [List.length_take, this]
+
+/-- the values of a BigU32s list iteration as `int64`s: block after block, `Start·1024 + m` -/
+theorem bigs_list_values (rev : Bool) (bs : List Block) (n : Int) :
+    (((bs.flatMap (fun b => blockAll rev b.bits (BitVec.setWidth 64 b.start * 1024#64))).take n.toNat).map BitVec.toInt) =
+      (bs.flatMap (fun b => (if rev then (members1024 b.bits).reverse else members1024 b.bits).map
+        (fun (m : Nat) => ((b.start.toNat * 1024 : Nat) : Int) + (m : Int)))).take n.toNat := by
+  rw [List.map_take, List.map_flatMap]
+  apply congrArg (List.take n.toNat)
+  apply flatMap_congr'
+  intro b _
+  unfold blockAll
+  rw [List.map_map]
+  apply List.map_congr_left
+  intro i hi
+  have : i ∈ members1024 b.bits := by cases rev <;> simpa using hi
+  simp only [Function.comp, big_value b.start i (members1024_lt _ i this)]
+
+-- non-vacuity: two blocks {5} (start 0) and {1} (start 8388608 = 2^23), forward, n = 5
+example : bigsGetN cfgFixed 9 false [⟨0#32, setI16 empty1024 5#16⟩, ⟨8388608#32, setI16 empty1024 1#16⟩] 5 =
+    .slice [5#64, 8589934593#64] := by decide
+example : tipsGetN cfgFixed 9 true [⟨0#32, setI16 empty1024 5#16⟩, ⟨1#32, setI16 (setI16 empty1024 1#16) 2#16⟩] 2 =
+    .slice [1026#32, 1025#32] := by decide
 
 /-! ### the unrepaired configuration (before f369e56 / d9c43db): the property is false of it, by concrete witnesses -/
 
